@@ -76,8 +76,10 @@ impl Mesh1D<f64, f64> {
                 let delta_x: f64 = x_pos - self.nodes[ node ];
                 let left = self.get_nodes_vars( node );
                 let right = self.get_nodes_vars( node + 1 );
-                let deriv = (right - left.clone()) / ( self.nodes[ node + 1 ] - self.nodes[ node ] );
-                result = left + deriv * delta_x;
+                let deriv = (right.clone() - left.clone()) / ( self.nodes[ node + 1 ] - self.nodes[ node ] );
+                // at the right-hand node the stored value itself: left + ( ( right - left ) / dx ) * dx is not
+                // exactly right in floating point ( the final node is never the left-hand end of a cell )
+                result = if x_pos == self.nodes[ node + 1 ] { right } else { left + deriv * delta_x };
             }
         }
         result
